@@ -175,3 +175,226 @@ Section Mixture.
     then Some (\sum_(v <- somes l) v) else None.
   Proof. by rewrite /score /=; case: ifP => // _; rewrite nsumE. Qed.
 End Mixture.
+
+(* ================================================================================== *)
+(* Bandwidths: the mexp programs cov_prog / oas_prog interpreted over 'M[F]                *)
+(* ================================================================================== *)
+Section Bandwidth.
+  Variable F : rcfType.
+  Implicit Types (x : F).
+
+  Lemma Z2F_nat (n : nat) : Z2F F (BinInt.Z.of_nat n) = n%:R.
+  Proof.
+    case: n => [|n] //=. by rewrite Pnat.SuccNat2Pos.id_succ.
+  Qed.
+
+  Lemma mx11_mul (A B : 'M[F]_1) : (A *m B) ord0 ord0 = A ord0 ord0 * B ord0 ord0.
+  Proof. by rewrite mxE big_ord_recl big_ord0 addr0. Qed.
+
+  (* ---- x x^T > 0 ------------------------------------------------------------------------- *)
+  Lemma rv_sq_ge0 (n : nat) (x : 'rV[F]_n) : 0 <= (x *m x^T) ord0 ord0.
+  Proof. by rewrite mxE; apply: sumr_ge0 => j _; rewrite mxE -expr2 sqr_ge0. Qed.
+
+  Lemma rv_sq_gt0 (n : nat) (x : 'rV[F]_n) : x != 0 -> 0 < (x *m x^T) ord0 ord0.
+  Proof.
+    move=> Hx. rewrite lt_neqAle rv_sq_ge0 andbT eq_sym.
+    apply: contra Hx => /eqP H0. apply/eqP/rowP => j. rewrite mxE.
+    move: H0. rewrite mxE => H0.
+    have Hge : forall i : 'I_n, true -> 0 <= x ord0 i * x^T i ord0.
+      by move=> i _; rewrite mxE -expr2 sqr_ge0.
+    have /(_ j isT) := psumr_eq0P Hge H0.
+    by rewrite mxE -expr2 => /eqP; rewrite sqrf_eq0 => /eqP.
+  Qed.
+
+  (* ---- shrinkage towards a multiple of the identity is positive definite -------------------- *)
+  Definition psd (n : nat) (A : 'M[F]_n) : Prop := forall x : 'rV[F]_n, 0 <= (x *m A *m x^T) ord0 ord0.
+  Definition pd (n : nat) (A : 'M[F]_n) : Prop :=
+    forall x : 'rV[F]_n, x != 0 -> 0 < (x *m A *m x^T) ord0 ord0.
+
+  Lemma shrink_spd (n : nat) (cov : 'M[F]_n) (psi c s : F) :
+    cov^T = cov -> psd cov -> 0 <= psi -> psi < 1 -> 0 < c -> 0 < s ->
+    let h := s *: (psi *: cov + ((1 - psi) * c) *: 1%:M) in
+    h^T = h /\ pd h.
+  Proof.
+    move=> Hsym Hpsd Hp0 Hp1 Hc Hs /=. split.
+      by rewrite linearZ /= linearD /= !linearZ /= Hsym trmx1.
+    move=> x Hx.
+    rewrite -scalemxAr -scalemxAl [X in 0 < X]mxE. apply: mulr_gt0 => //.
+    rewrite mulmxDr mulmxDl [X in 0 < X]mxE -!scalemxAr -!scalemxAl mulmx1.
+    rewrite [X in 0 < X + _]mxE [X in 0 < _ + X]mxE.
+    apply: ltr_paddl; first by apply: mulr_ge0 => //; exact: Hpsd.
+    apply: mulr_gt0; last exact: rv_sq_gt0.
+    by apply: mulr_gt0 => //; rewrite subr_gt0.
+  Qed.
+
+  (* ---- values of 1x1 programs ----------------------------------------------------------------- *)
+  Section Scalar.
+    Variable env : env_mx F.
+    Definition sv (e : mexp 1 1) : F := (eval_mx env e) ord0 ord0.
+    Lemma sv_mul (a b : mexp 1 1) : sv (MMul a b) = sv a * sv b.
+    Proof. by rewrite /sv /= mx11_mul. Qed.
+    Lemma sv_add (a b : mexp 1 1) : sv (MAdd a b) = sv a + sv b.
+    Proof. by rewrite /sv /= mxE. Qed.
+    Lemma sv_sub (a b : mexp 1 1) : sv (MSub a b) = sv a - sv b.
+    Proof. by rewrite /sv /= !mxE. Qed.
+    Lemma sv_const z : sv (MConst z) = Z2F F z.
+    Proof. by rewrite /sv /= mxE mulr1n. Qed.
+    Lemma sv_map f (t a : mexp 1 1) : sv (MMap f t a) = sfun_mx f (sv t) (sv a).
+    Proof. by rewrite /sv /= mxE. Qed.
+    Lemma sv_trace (n : nat) (A : mexp n n) : sv (MTrace A) = \tr (eval_mx env A).
+    Proof. by rewrite /sv /= mxE mulr1n. Qed.
+    Definition svE := (sv_mul, sv_add, sv_sub, sv_const, sv_map, sv_trace).
+    Lemma ev_scale (m n : nat) (c : mexp 1 1) (A : mexp m n) :
+      eval_mx env (MScale c A) = sv c *: eval_mx env A.
+    Proof. by []. Qed.
+    Lemma ev_add (m n : nat) (A B : mexp m n) :
+      eval_mx env (MAdd A B) = eval_mx env A + eval_mx env B.
+    Proof. by []. Qed.
+  End Scalar.
+
+  (* ---- oas_prog ----------------------------------------------------------------------------- *)
+  Section Oas.
+    Variables (D : nat) (env : env_mx F).
+    Let cov : 'M[F]_D := env D D 0%N.
+    Let nl : F := (env 1%N 1%N 1%N) ord0 ord0.
+    Let s : F := (env 1%N 1%N 2%N) ord0 ord0.
+    Let tr : F := \tr cov.
+    Let t2 : F := \sum_i cov i i * cov i i.
+    Let a : F := 1 - 2%:R / D%:R.
+    Let num : F := a * t2 + tr * tr.
+    Let den : F := (nl + a) * t2 - tr * tr / D%:R.
+    (* 1 - phi, phi = min(1, num/den) if den > 0 else 1 *)
+    Definition oas_psi : F :=
+      let q := (den - num) * (if 0 < den then den^-1 else 0) in if 0 < q then q else 0.
+
+    Lemma oas_psiE : sv env (op_psi D) = oas_psi.
+    Proof.
+      rewrite /oas_psi /op_psi /op_den /op_num /op_a /op_t2 /op_tr /m_recip !svE /=.
+      rewrite !Z2F_nat /sv /= -/nl -/cov -/tr.
+      have -> : \tr (\matrix_(i, j) (cov i j * cov i j)) = t2.
+        by apply: eq_bigr => i _; rewrite mxE.
+      by rewrite -/a -/num -/den.
+    Qed.
+
+    Lemma oas_prog_formula :
+      eval_mx env (oas_prog D) =
+      s *: (oas_psi *: cov + ((1 - oas_psi) * (tr / D%:R)) *: 1%:M).
+    Proof.
+      rewrite /oas_prog !ev_scale ev_add !ev_scale oas_psiE /=.
+      congr (_ *: (_ + _ *: _)).
+      rewrite /op_coef 2!sv_mul sv_sub oas_psiE sv_const /m_recip sv_map sv_trace !sv_const /=.
+      by rewrite Z2F_nat -mulrA.
+    Qed.
+
+    Lemma t2_ge0 : 0 <= t2.
+    Proof. by apply: sumr_ge0 => i _; rewrite -expr2 sqr_ge0. Qed.
+
+    (* with at least two dimensions and a positive trace the repaired shrinkage weight phi lies in
+       (0, 1], whatever the local population nl is *)
+    Lemma oas_psi_range : (2 <= D)%N -> 0 < tr -> 0 <= oas_psi < 1.
+    Proof.
+      move=> HD Htr. rewrite /oas_psi.
+      have HDr : (0 : F) < D%:R by rewrite ltr0n; apply: leq_trans HD.
+      have Ha : 0 <= a.
+        rewrite /a subr_ge0 ler_pdivr_mulr // mul1r ler_nat. exact: HD.
+      have Hnum : 0 < num.
+        rewrite /num. apply: ltr_paddl; first by apply: mulr_ge0 => //; exact: t2_ge0.
+        by apply: mulr_gt0.
+      case: ifP => Hden; last by rewrite mulr0 ltxx lexx ltr01.
+      set q := (den - num) * den^-1.
+      have Hq : q < 1.
+        rewrite /q mulrBl divff ?gt_eqF // ltr_subl_addr ltr_addl. by apply: divr_gt0.
+      by case: ifP => [Hq0|_]; rewrite ?lexx ?ltr01 ?Hq ?(ltW Hq0).
+    Qed.
+
+    (* C17_bandwidth_spd, dimension >= 2 *)
+    Lemma bandwidth_spd :
+      (2 <= D)%N -> cov^T = cov -> psd cov -> 0 < tr -> 0 < s ->
+      (eval_mx env (oas_prog D))^T = eval_mx env (oas_prog D) /\ pd (eval_mx env (oas_prog D)).
+    Proof.
+      move=> HD Hsym Hpsd Htr Hs. rewrite oas_prog_formula.
+      have /andP [Hp0 Hp1] := oas_psi_range HD Htr.
+      apply: shrink_spd => //. apply: divr_gt0 => //. by rewrite ltr0n; apply: leq_trans HD.
+    Qed.
+  End Oas.
+
+  (* dimension 1: h = s * cov whatever phi is *)
+  Lemma bandwidth_spd_1 (env : env_mx F) :
+    let cov : 'M[F]_1 := env 1%N 1%N 0%N in
+    let s : F := (env 1%N 1%N 2%N) ord0 ord0 in
+    0 < cov ord0 ord0 -> 0 < s ->
+    (eval_mx env (oas_prog 1))^T = eval_mx env (oas_prog 1) /\ pd (eval_mx env (oas_prog 1)).
+  Proof.
+    move=> cov s Hc Hs. rewrite oas_prog_formula -/cov -/s.
+    set psi := oas_psi 1 env.
+    have Hcov : cov = (cov ord0 ord0)%:M by exact: mx11_scalar.
+    have Htr : \tr cov = cov ord0 ord0 by rewrite /mxtrace big_ord_recl big_ord0 addr0.
+    have -> : psi *: cov + ((1 - psi) * (\tr cov / 1%:R)) *: 1%:M = (cov ord0 ord0) *: 1%:M.
+      rewrite Htr divr1 {1}Hcov -!scalemx1 !scalerA -scalerDl. congr (_ *: _).
+      by rewrite -mulrDl addrC subrK mul1r.
+    split; first by rewrite !linearZ /= trmx1.
+    move=> x Hx. rewrite -!scalemxAr -!scalemxAl mulmx1 !mxE.
+    by apply: mulr_gt0 => //; apply: mulr_gt0 => //; exact: rv_sq_gt0.
+  Qed.
+
+  (* ---- cov_prog ------------------------------------------------------------------------------- *)
+  Section Cov.
+    Variables (n D : nat) (env : env_mx F).
+    Let P : 'cV[F]_n := eval_mx env (cp_p n).
+    Let Xc : 'M[F]_(n, D) := eval_mx env (cp_xxm n D).
+    Let c : F := (eval_mx env (cp_c n)) ord0 ord0.
+
+    (* the free-space covariance is  (1 - sum p^2)^-1 Xc^T diag(p) Xc *)
+    Lemma cov_prog_formula :
+      eval_mx env (cov_prog n D) = c^-1 *: ((diag_mx P^T *m Xc)^T *m Xc).
+    Proof. by rewrite [LHS]/= !mxE. Qed.
+
+    Lemma cov_prog_sym : (eval_mx env (cov_prog n D))^T = eval_mx env (cov_prog n D).
+    Proof.
+      by rewrite cov_prog_formula linearZ /= !trmx_mul !trmxK tr_diag_mx mulmxA.
+    Qed.
+
+    Lemma cov_prog_psd :
+      (forall i, 0 <= P i ord0) -> 0 < c -> psd (eval_mx env (cov_prog n D)).
+    Proof.
+      move=> HP Hc x. rewrite cov_prog_formula -scalemxAr -scalemxAl mxE.
+      apply: mulr_ge0; first by rewrite invr_ge0 ltW.
+      rewrite trmx_mul tr_diag_mx !mulmxA -[x *m Xc^T]trmxK trmx_mul trmxK.
+      set y := Xc *m x^T. rewrite -mulmxA mul_mx_diag mxE.
+      apply: sumr_ge0 => j _. rewrite !mxE mulrAC -expr2.
+      by apply: mulr_ge0; [rewrite sqr_ge0 | exact: HP].
+    Qed.
+
+    (* the normalised weights: p = w / totw *)
+    Lemma cov_prog_pE i :
+      P i ord0 = ((\sum_k (env n 1%N 1%N) k ord0)^-1) * (env n 1%N 1%N) i ord0.
+    Proof.
+      rewrite /P /= !mxE /=. congr (_^-1 * _).
+      by apply: eq_bigr => k _; rewrite !mxE mul1r.
+    Qed.
+
+    Lemma cov_prog_cE : c = 1 - \sum_i P i ord0 * P i ord0.
+    Proof.
+      rewrite /c /= !mxE /=. congr (_ - _).
+      by apply: eq_bigr => i _; rewrite mxE.
+    Qed.
+  End Cov.
+
+  (* "the localisation reaches at least one other grid point": if two of the normalised local
+     weights are positive then 1 - sum p^2 > 0 *)
+  Lemma reach_pos (n : nat) (p : 'I_n -> F) (i0 j0 : 'I_n) :
+    (forall i, 0 <= p i) -> \sum_i p i = 1 -> i0 != j0 -> 0 < p i0 -> 0 < p j0 ->
+    0 < 1 - \sum_i p i * p i.
+  Proof.
+    move=> Hp Hs Hij Hi Hj. rewrite subr_gt0 -{2}Hs.
+    have Hle1 i : p i <= 1.
+      by rewrite -Hs (bigD1 i) //= ler_addl; apply: sumr_ge0.
+    have Hi1 : p i0 < 1.
+      rewrite -Hs (bigD1 i0) //= ltr_addl (bigD1 j0) 1?eq_sym //=.
+      by apply: ltr_paddr => //; apply: sumr_ge0.
+    rewrite (bigD1 i0) //= [X in _ < X](bigD1 i0) //=.
+    apply: ltr_le_add.
+      by rewrite -{3}[p i0]mulr1 ltr_pmul2l.
+    apply: ler_sum => i _. by rewrite -{3}[p i]mulr1 ler_wpmul2l.
+  Qed.
+End Bandwidth.
